@@ -3,6 +3,8 @@ package props
 import (
 	"fmt"
 	"math/rand/v2"
+	"runtime"
+	"sync/atomic"
 	"strings"
 	"unicode/utf8"
 
@@ -183,6 +185,7 @@ func C11(r *core.Run) {
 		})
 	}
 	c11pasteFocus(r)
+	c11pipeline(r)
 }
 
 // c11one: one character, whole and split at every byte boundary.
@@ -336,6 +339,83 @@ func c11pasteFocus(r *core.Run) {
 				}
 				r.Case("focus|" + ti.Name + "|" + f.s)
 			}
+		}
+	}
+}
+
+// c11pipeline: typed text through the real inputLoop/keychan/mainLoop/eventQ
+// path while the application is not polling (both queues fill, the reader
+// parks), then a late poller: the runes must come out exactly as typed.
+func c11pipeline(r *core.Run) {
+	ti := Pristine("xterm-256color")
+	n := r.Pick(6, 60)
+	pool := []rune("abcdefghijklmnopqrstuvwxyzABCDEFGHIJKLMNOPQRSTUVWXYZ0123456789 éñüλжЩ世界日本語あア한😀")
+	for i := 0; i < n; i++ {
+		rg := r.Rand("pipe", i)
+		ls, err := startScreen(ti, 80, 24, nil)
+		if err != nil {
+			r.Inconclusive("pipeline: " + err.Error())
+			return
+		}
+		var chunks [][]byte
+		var want []rune
+		nchunks := 14 + rg.IntN(10)
+		for c := 0; c < nchunks; c++ {
+			var b []byte
+			k := 1 + rg.IntN(30)
+			if c == 0 {
+				k = 12 + rg.IntN(10)
+			}
+			for j := 0; j < k && len(b) < 120; j++ {
+				rn := pool[rg.IntN(len(pool))]
+				want = append(want, rn)
+				b = append(b, []byte(string(rn))...)
+			}
+			chunks = append(chunks, b)
+		}
+		var fed int32
+		feederDone := make(chan struct{})
+		go func() {
+			defer close(feederDone)
+			for _, c := range chunks {
+				ls.tty.Feed(c)
+				atomic.AddInt32(&fed, 1)
+			}
+			ls.tty.Feed([]byte("ζ"))
+		}()
+		// let the queues fill: wait (in scheduler steps, not time) until the reader is
+		// no longer waiting for input although input is on offer
+		stalled := false
+		for k := 0; k < 2000000 && !stalled; k++ {
+			runtime.Gosched()
+			select {
+			case <-feederDone:
+				stalled = true
+			default:
+			}
+			if atomic.LoadInt32(&fed) >= 12 && atomic.LoadInt32(&ls.tty.Reading) == 0 {
+				stalled = true
+				r.Count("pipeline_backpressure_reached", 1)
+			}
+		}
+		got, ok := ls.pollUntilRune('ζ')
+		<-feederDone
+		ls.fini()
+		if !ok {
+			r.Inconclusive("pipeline: sentinel not delivered")
+			continue
+		}
+		r.Case(fmt.Sprintf("pipe|%d", i))
+		good := len(got) == len(want)
+		for k := 0; good && k < len(want); k++ {
+			good = got[k].T == "key" && got[k].Key == tcell.KeyRune && got[k].Rune == want[k]
+		}
+		if !good {
+			var gs []rune
+			for _, e := range got {
+				gs = append(gs, e.Rune)
+			}
+			r.Violate("pipeline:text-mangled", fmt.Sprintf("typed %q in %d reads while the application was not polling; delivered %q", string(want), len(chunks), string(gs)), nil)
 		}
 	}
 }
